@@ -6,8 +6,8 @@ use crate::axecutor::Axecutor;
 use crate::helpers::errors::AxError;
 
 use crate::helpers::macros::calculate_r_rm;
-use crate::helpers::macros::calculate_rm_r;
 use crate::helpers::macros::fatal_error;
+use crate::helpers::operand::Operand;
 use crate::state::flags::*;
 
 impl Axecutor {
@@ -27,12 +27,25 @@ impl Axecutor {
     /// MOVZX r16, r/m8
     ///
     /// o16 0F B6 /r
+    fn movzx_read_rm8(&self, i: Instruction, src: Operand) -> Result<u64, AxError> {
+        match src {
+            Operand::Memory(m) => self.mem_read_8(self.mem_addr(m)),
+            Operand::Register(r) => self.reg_read_8(r),
+            _ => fatal_error!(
+                "Invalid source operand {:?} for {:?} instruction",
+                src,
+                i.mnemonic()
+            ),
+        }
+    }
+
     fn instr_movzx_r16_rm8(&mut self, i: Instruction) -> Result<(), AxError> {
         debug_assert_eq!(i.code(), Movzx_r16_rm8);
 
-        calculate_rm_r![u16f; u8; self; i; |_, s| {
-            (s as u16, 0)
-        }; (set: FLAGS_UNAFFECTED; clear: 0)]
+        // The source is the r/m8 operand (register or memory), the destination always a register
+        let (dest, src) = self.instruction_operands_2(i)?;
+        let src_val = self.movzx_read_rm8(i, src)?;
+        self.reg_write_16(dest.into(), src_val)
     }
 
     /// MOVZX r32, r/m8
@@ -41,9 +54,10 @@ impl Axecutor {
     fn instr_movzx_r32_rm8(&mut self, i: Instruction) -> Result<(), AxError> {
         debug_assert_eq!(i.code(), Movzx_r32_rm8);
 
-        calculate_rm_r![u32f; u8; self; i; |_, s| {
-            (s as u32, 0)
-        }; (set: FLAGS_UNAFFECTED; clear: 0)]
+        // The source is the r/m8 operand (register or memory), the destination always a register
+        let (dest, src) = self.instruction_operands_2(i)?;
+        let src_val = self.movzx_read_rm8(i, src)?;
+        self.reg_write_32(dest.into(), src_val)
     }
 
     /// MOVZX r64, r/m8
@@ -52,9 +66,10 @@ impl Axecutor {
     fn instr_movzx_r64_rm8(&mut self, i: Instruction) -> Result<(), AxError> {
         debug_assert_eq!(i.code(), Movzx_r64_rm8);
 
-        calculate_rm_r![u64f; u8; self; i; |_, s| {
-            (s as u64, 0)
-        }; (set: FLAGS_UNAFFECTED; clear: 0)]
+        // The source is the r/m8 operand (register or memory), the destination always a register
+        let (dest, src) = self.instruction_operands_2(i)?;
+        let src_val = self.movzx_read_rm8(i, src)?;
+        self.reg_write_64(dest.into(), src_val)
     }
 
     /// MOVZX r32, r/m16
